@@ -200,7 +200,14 @@ def gen_c12(rng, tier, index):
     sc['aim'] = rng.random()
     sc['aim_index'] = rng.randrange(10**6)
     sc['style'] = rng.choice(['rel', 'rel', 'rel', 'abs', 'random', 'random',
-                              'tilde'])
+                              'tilde', 'semi'])
+    # how the require call is written: require("S") or the parenthesis-less
+    # string-call forms
+    sc['callform'] = rng.choice(['paren', 'paren', 'paren', 'paren', 'dq',
+                                 'sq', 'long'])
+    # an unrelated cart (in a cousin directory, same relative name) is loaded
+    # first in the same process, from its own directory
+    sc['warmup'] = rng.random() < 0.2
     sc['perturb_seed'] = rng.randrange(10**9)
     if mode == 'include':
         sc['route'] = rng.choice(['from_file', 'from_file', 'from_file',
@@ -293,6 +300,13 @@ def _derive_S(sc, w, info):
         tgt = ins[sc['aim_index'] % len(ins)]
     if sc['style'] == 'abs':
         s = '$ROOT/' + tgt
+    elif sc['style'] == 'semi':
+        # a load-path separator inside the cart-controlled string
+        tail = '$ROOT/' + tgt if rng.random() < 0.7 else os.path.relpath(
+            w.p(tgt), w.p(base))
+        if rng.random() < 0.4 and '.' in os.path.basename(tail):
+            tail = tail[:tail.rfind('.')]
+        return rng.choice(['nothing', 'ok', '']) + ';' + tail
     elif sc['style'] == 'tilde':
         # home-relative spelling of an absolute path
         home = os.environ.get('HOME') or w.p('home')
@@ -390,8 +404,17 @@ def execute(sc):
             else:
                 roots = [include_root(main_abs, eff_home)]
         else:
-            req = 'require("%s"%s)' % (S_real.replace('\\', '\\\\').replace(
-                '"', '\\"'), sc.get('opts', ''))
+            cf = sc.get('callform', 'paren')
+            esc = S_real.replace('\\', '\\\\')
+            if cf == 'paren' or sc.get('opts'):
+                req = 'require("%s"%s)' % (esc.replace('"', '\\"'),
+                                           sc.get('opts', ''))
+            elif cf == 'dq':
+                req = 'require "%s"' % esc.replace('"', '\\"')
+            elif cf == 'sq':
+                req = "require '%s'" % esc.replace("'", "\\'")
+            else:
+                req = 'require [[%s]]' % S_real.replace(']]', '] ]')
             if sc.get('nest'):
                 w.put(base + '/main.lua', b'main_marker=1\nrequire("sub/pkg")\n')
                 w.put(base + '/sub/pkg.lua',
@@ -412,6 +435,26 @@ def execute(sc):
         w.mkdir('out')
         operands.add(norm(out_abs))
         operands.add(norm(w.p(base + '/cart_fmt.p8')))
+        if sc.get('warmup'):
+            cousin = os.path.dirname(info['root']) + '/cousin'
+            try:
+                if sc['mode'] == 'include':
+                    w.put(cousin + '/cart.p8', _p8_with_code(
+                        b'warm_marker=1\n#include init.lua\n'))
+                    os.chdir(w.p(cousin))
+                    pfile.from_file('cart.p8')
+                else:
+                    w.put(cousin + '/main.lua',
+                          b'warm_marker=1\nrequire("init")\n')
+                    os.chdir(w.p(cousin))
+                    tool.main(['build', w.p('out/warm.p8'), '--lua',
+                               'main.lua'])
+                core.bump(res['probes'], 'warmup-load-elsewhere-first')
+            except BaseException:
+                core.bump(res['probes'], 'warmup-load-failed')
+            os.chdir(w.p(cwd_rel))
+            w.out.seek(0)
+            w.out.truncate(0)
         exc = None
         rc = None
         result_code = b''
@@ -521,7 +564,7 @@ def execute(sc):
             core.bump(res['faults'], 'REJECTED')
         if sc['layout'] in CARTS_DIRS and n_inside:
             core.bump(res['probes'], 'carts-folder-root-used')
-        if sc.get('nest') and n_inside > 1:
+        if sc.get('nest') and n_inside >= 1:
             core.bump(res['probes'], 'nested-require-resolved')
         outcome = ('outside-open' if outside else 'leak' if leaked else
                    'failed' if failed else 'loaded')
@@ -624,7 +667,12 @@ def gen_c20(rng, tier, index):
     incs = [i for i, ln in enumerate(lines) if ln['t'] == 'inc']
     if incs and rng.random() < 0.2:
         sc['enoent'] = lines[rng.choice(incs)]['target']
-    elif incs and rng.random() < 0.3:
+    if incs and rng.random() < 0.15:
+        sc['prelude'] = rng.choice(['corrupt-header', 'lex-error',
+                                    'parse-error'])
+    if rng.random() < 0.15:
+        sc['via_symlink'] = True
+    if sc['enoent'] is None and incs and rng.random() < 0.3:
         # a second load after every target was rewritten in place
         t2 = []
         for t, tg in enumerate(targets):
@@ -714,6 +762,8 @@ def execute_splice(sc):
     reflect the files as they are *now*."""
     res = core.new_result()
     with world.World(env={'HOME': '$ROOT/home'}) as w:
+        if sc.get('prelude'):
+            _prelude_failed_load(w, sc, res)
         views = [sc]
         if sc.get('second'):
             views.append(dict(sc, targets=sc['second']['targets'],
@@ -733,6 +783,32 @@ def execute_splice(sc):
     return res
 
 
+def _prelude_failed_load(w, sc, res):
+    """A load that fails part-way (an included cart is corrupt) happens first
+    in the same process; the loads under test follow on repaired files."""
+    from pico8.game import file as pfile
+    base = 'work/proj'
+    how = sc['prelude']
+    bad = {'corrupt-header': b'not a cart at all\n',
+           'lex-error': refcodec.encode_p8(refcodec.make_cart(
+               code=b'x = "unterminated\n')),
+           'parse-error': refcodec.encode_p8(refcodec.make_cart(
+               code=b'x = = 1\n'))}[how]
+    w.put(base + '/broken_inc.p8', bad)
+    w.put(base + '/pre.p8', _p8_with_code(
+        b'pre_marker=1\n#include broken_inc.p8\npre_marker2=2\n'))
+    cwd0 = os.getcwd()
+    try:
+        pfile.from_file(w.p(base + '/pre.p8'))
+        core.bump(res['probes'], 'prelude-load-unexpectedly-succeeded')
+    except BaseException:
+        core.bump(res['probes'], 'prelude-load-failed-in-included-cart')
+        core.bump(res['faults'], 'FAILED-LOAD-FIRST')
+    os.chdir(cwd0)
+    os.unlink(w.p(base + '/broken_inc.p8'))
+    os.unlink(w.p(base + '/pre.p8'))
+
+
 def _splice_round(w, sc, res, rno):
     from pico8 import tool
     from pico8.game import file as pfile
@@ -744,6 +820,11 @@ def _splice_round(w, sc, res, rno):
         base = 'work/proj'
         w.mkdir(base)
         w.mkdir('home')
+        if sc.get('via_symlink'):
+            # the cart directory is addressed through a symbolic link
+            if not os.path.lexists(w.p('work/link')):
+                os.symlink('proj', w.p('work/link'))
+            base = 'work/link'
         expect_open = []
         never_open = []
         for ti, tg in enumerate(sc['targets']):
@@ -830,7 +911,13 @@ def _splice_round(w, sc, res, rno):
         else:
             # (1) I/O history
             want_opens = [cart_rel] + expect_open
-            bad_nested = [o for o in opens if o in never_open]
+
+            def rp(rel):
+                # names are compared after resolving symbolic links (the
+                # cart directory may be addressed through one)
+                return os.path.realpath(w.p(rel))
+            never_real = {rp(x) for x in never_open}
+            bad_nested = [o for o in opens if rp(o) in never_real]
             if bad_nested:
                 outcome = 'nested-opened'
                 core.violation(
@@ -838,7 +925,7 @@ def _splice_round(w, sc, res, rno):
                     'C20|nested include target opened',
                     'an include line inside an included file was followed: '
                     'opened %s' % bad_nested)
-            elif not set(opens) <= set(want_opens):
+            elif not {rp(o) for o in opens} <= {rp(x) for x in want_opens}:
                 # only files that the cart's own include lines name may be
                 # read (how often and in which order is the implementation's
                 # business: a per-call cache that reads a twice-included file
@@ -935,6 +1022,9 @@ def shrink(sc):
                         tabs = tg['tabs'][:k] + [c] + tg['tabs'][k + 1:]
                         yield dict(sc, targets=sc['targets'][:ti] + [
                             dict(tg, tabs=tabs)] + sc['targets'][ti + 1:])
+        for k in ('prelude', 'via_symlink', 'second'):
+            if sc.get(k):
+                yield {kk: v for kk, v in sc.items() if kk != k}
         if sc['route'] != 'from_file':
             yield dict(sc, route='from_file')
         if sc['cwd'] != 'root' or sc['argstyle'] != 'abs':
@@ -952,7 +1042,7 @@ def shrink(sc):
     for k, v in (('cwd', 'root'), ('argstyle', 'abs'), ('home', 'home'),
                  ('route', 'from_file' if sc['mode'] == 'include'
                   else 'build'), ('tab', None), ('nest', False),
-                 ('opts', '')):
+                 ('opts', ''), ('warmup', False), ('callform', 'paren')):
         if k in sc and sc[k] != v:
             yield dict(sc, **{k: v})
     lp = sc.get('lua_path')
